@@ -30,7 +30,8 @@ PROPERTIES = {
         "assumptions": COMMON_ASSUME + BITLEVEL_ASSUME + VHDL_ASSUME + [
             "the numeric_std / std_logic_1164 meaning of the emitted operators is the trusted transcription specs/vhdl_ops.py + specs/vhdl_expr.py (no VHDL simulator is available to cross-check it)",
             "operand lemma: an operand expression writes text whose VHDL type and value are those of the CoHDL type and value of its .result (established by format_cast / format_vhdl_cast; format_value's reference chain _format_ref is covered for typed views and slices by the C13 contracts, not re-proved here)",
-            "NOT decided here: if-expression / select_with merging through value branches (_value_branch.py, _generate_ir.py l.605-671), enum and array operands, run-time indexed element access; whole expression TREES are covered compositionally (each node under the operand lemma), not by an end-to-end evaluation of emitted designs",
+            "if-expressions and select_with: the IR selection per merged value (IrGenerator._apply_impl, IfExpr / SelectWith branches: target_i <= body_i when test else orelse_i; choice_j -> source_{j,i}, default) and its translation to with-select / case are under contract; the tracer side that records the redirects (_value_branch._MergedBranch, _try_join, _redirect) is NOT",
+            "NOT decided here: enum and array operands, run-time indexed element access; whole expression TREES are covered compositionally (each node under the operand lemma), not by an end-to-end evaluation of emitted designs",
         ],
         "canaries": [
             {"name": "binop-operand-order", "contract": "cohdl._compiler.backend.vhdl._vhdl_repr:BinOp.write", "case": "SUB:Unsigned,Unsigned", "file": "cohdl/_compiler/backend/vhdl/_vhdl_repr.py",
